@@ -24,6 +24,7 @@ type pipe struct {
 	alert  bool   // also record alert events on topic T<name>
 	rewA   string // the pipeline rewrites group tag a by appending this suffix (attribution of group-tag-only outputs)
 	kf     string // known-finding key expected (documentation only)
+	full   string // whole script instead of `from + script` (%F = the grouped from())
 }
 
 var catalogue = []pipe{
@@ -53,6 +54,10 @@ var catalogue = []pipe{
 	{name: "movingAverage", script: `|movingAverage('x', 2)`},
 	{name: "elapsed", script: `|elapsed('x', 1s)`},
 	{name: "last", script: `|window().period(2s).every(2s)|last('x')`},
+	// two-parent nodes fed by two branches of the same grouped stream: per group, the result must not depend on other groups
+	{name: "joinSelf", full: "var l = %F\n    |eval(lambda: \"x\" + 1).as('y')\nvar r = %F\n    |eval(lambda: \"x\" * 2).as('z')\nl\n    |join(r)\n        .as('l', 'r')\n        .tolerance(1s)"},
+	{name: "joinSelfCount", full: "var l = %F\nvar r = %F\n    |where(lambda: \"x\" >= 0)\nl\n    |join(r)\n        .as('l', 'r')\n    |stateCount(lambda: \"l.x\" > 1)"},
+	// (a union of two branches is not in the catalogue: the order of equal-time points of different parents is not fixed, C12)
 	// windows that are regularly EMPTY (period < every): aggregates defined on empty input emit for them
 	{name: "sparseWindowSum", script: `|window().period(1s).every(2s)|sum('x')`},
 	{name: "sparseWindowCount", script: `|window().period(1s).every(2s)|count('x')`},
@@ -134,6 +139,10 @@ func runOnce(env *rt.Env, pp pipe, g grouping, ins []in, ks []int, topic string)
 	var out [2][]any
 	from := `stream|from()` + g.clause
 	script := from + "\n    " + strings.ReplaceAll(pp.script, "%T", topic) + "\n    |log().prefix('out')\n"
+	if pp.full != "" {
+		// a pipeline with several sources: %F stands for the grouped from()
+		script = strings.ReplaceAll(strings.ReplaceAll(pp.full, "%F", from), "%T", topic) + "\n    |log().prefix('out')\n"
+	}
 	var rec *rt.RecHandler
 	if pp.alert {
 		rec = rt.NewRecHandler(topic)
@@ -242,6 +251,9 @@ func stripZ(m rt.M) {
 	}
 	if f, ok := m["fields"].(rt.M); ok {
 		delete(f, "k")
+		// the write index also travels through joins under the parents' prefixes
+		delete(f, "l.k")
+		delete(f, "r.k")
 	}
 	if pts, ok := m["points"].([]any); ok {
 		for _, p := range pts {
